@@ -273,7 +273,7 @@ func newConsNode(state string, t int) (c *consNode, err error) {
 	c = &consNode{State: state, T: t, N: n}
 	c.Sw = p2p.VerifC18NewSwitch(configs.DefaultP2PConfig())
 	c.ConR = consensus.NewConsensusManager(n.CS, &configs.FastSyncConfig{Enable: true, TargetPending: 10})
-	c.ConR.SetSwitch(c.Sw)
+	c.Sw.AddReactor("CONSENSUS", c.ConR) // SetSwitch; the switch tells the reactor when it removes a peer
 	if e := c.ConR.Start(); e != nil {
 		return nil, e
 	}
